@@ -42,6 +42,14 @@ class SplitPoint(EngineSignal):
 CTX: "Ctx | None" = None  # the context of the path being executed
 
 
+def simplify(e):
+    """z3.simplify, tolerant of the occasional internal z3 error"""
+    try:
+        return z3.simplify(e)
+    except z3.Z3Exception:
+        return e
+
+
 def ctx() -> "Ctx":
     if CTX is None:
         raise RuntimeError("no symbolic context active")
@@ -183,7 +191,7 @@ class Ctx:
             self.model = m
 
     def decide(self, expr) -> bool:
-        expr = z3.simplify(expr)
+        expr = simplify(expr)
         if z3.is_true(expr):
             return True
         if z3.is_false(expr):
